@@ -511,6 +511,15 @@ def run(ctx):
         ctx.broken_obligation('Properties_C12.vo (direct coqc)', clog)
     elif not ctx.check_theorems():
         ctx.broken_obligation('Properties_C12.vo', getattr(ctx, 'broken', {}))
+    if okc and os.path.exists(os.path.join(lib.COQ, 'Properties', 'Properties_C12c.v')):
+        # T5: builder.c pad/alignup leaves and the emit_front/emit_back range guards regenerated from the clang AST
+        from . import c01c_util
+        ok, msg = c01c_util.regen_builder_leaves(ctx)
+        ctx.log('T5 builder leaves: %s' % (msg if not ok else 'regenerated, Properties_C12c re-checked'))
+        if not ok:
+            w = c01c_util.LAST.get('witnesses') or []
+            if w: ctx.violation('leaf:' + w[0]['leaf'], msg, w[0])
+            else: ctx.broken_obligation('Properties_C12c.vo', dict(c01c_util.LAST, message=msg))
     if P < 2 or P % 2:
         ctx.violation('page-size-odd', 'FLATCC_EMITTER_PAGE_SIZE = %d is not a positive even number (first page is split in halves)' % P, {'page_size': P})
 
